@@ -9,14 +9,11 @@ open Asn1c.Spec.Constraint Asn1c.Impl.ConsParse
 
 /-! ### the chain of serially applied constraints -/
 
-/-- one serially applied constraint: an element tree, possibly with an extension marker (no additions) -/
+/-- one serially applied constraint: an element tree, possibly with an extension marker and
+    extension additions -/
 def IsSpec : Cons → Prop
   | .ext r => IsElem r
-  | c => IsElem c
-
-/-- the constraints written after one type, none extensible -/
-def IsLevelNoExt : Cons → Prop
-  | .serial a b => IsLevelNoExt a ∧ IsElem b
+  | .exta r a => IsElem r ∧ IsElem a
   | c => IsElem c
 
 /-- the constraints written after one type, each possibly extensible -/
@@ -29,18 +26,9 @@ def IsChainAny : Cons → Prop
   | .refine a b => IsChainAny a ∧ IsLevelAny b
   | c => IsLevelAny c
 
-/-- the own constraints of a *referencing* type: only the last one may carry the marker
-    (a non-last marker is not removed by the pull-up there: `own_nonlast_marker_kept_cex`) -/
-def IsLevelLast : Cons → Prop
-  | .serial a b => IsLevelNoExt a ∧ IsSpec b
-  | c => IsSpec c
-
-/-- guard domain of the C09 theorems for INTEGER value constraints: serially applied constraints
-    and type reference chains over element trees; extension markers (without additions) anywhere
-    except on a non-last own constraint of a referencing type -/
-def DomV : Cons → Prop
-  | .refine a b => IsChainAny a ∧ IsLevelLast b
-  | c => IsLevelAny c
+/-- domain of the C09 theorems for INTEGER value constraints: serially applied constraints and type
+    reference chains over element trees; extension markers, with or without additions, anywhere -/
+def DomV (c : Cons) : Prop := IsChainAny c
 
 
 /-- the serially applied constraints in order -/
@@ -73,11 +61,13 @@ def spec1 : Cons → CT
 /-- a constraint as the parser leaves it -/
 def lastCT : Cons → CT
   | .ext r => .csv [elemCT r, .ext]
+  | .exta r a => .csv [elemCT r, .ext, elemCT a]
   | s => spec1 s
 
 /-- a constraint after `_remove_extensions`: the marker is cut off, the one-element ACT_CA_CSV stays -/
 def stripCT : Cons → CT
   | .ext r => .csv [elemCT r]
+  | .exta r _ => .csv [elemCT r]
   | s => spec1 s
 
 
@@ -144,9 +134,27 @@ theorem removeExtList_cons_ne {c : CT} (h : c ≠ .ext) (rest : List CT) :
   cases c <;> simp_all [removeExtList]
 
 
+/-- the three shapes of a serially applied constraint -/
+theorem isSpec_cases {s : Cons} (h : IsSpec s) :
+    (∃ r, s = .ext r ∧ IsElem r) ∨ (∃ r a, s = .exta r a ∧ IsElem r ∧ IsElem a) ∨ IsElem s := by
+  cases s with
+  | ext r => exact Or.inl ⟨r, rfl, h⟩
+  | exta r a => exact Or.inr (Or.inl ⟨r, a, rfl, h.1, h.2⟩)
+  | single v => exact Or.inr (Or.inr h)
+  | range lo hi => exact Or.inr (Or.inr h)
+  | union a b => exact Or.inr (Or.inr h)
+  | inter a b => exact Or.inr (Or.inr h)
+  | except a b => exact Or.inr (Or.inr h)
+  | paren a => exact Or.inr (Or.inr h)
+  | size a => exact absurd h (by simp [IsSpec, IsElem])
+  | serial a b => exact absurd h (by simp [IsSpec, IsElem])
+  | refine a b => exact absurd h (by simp [IsSpec, IsElem])
+
 theorem lastCT_ne_ext {s : Cons} (h : IsSpec s) : lastCT s ≠ .ext := by
-  cases s <;> simp_all [lastCT, IsSpec, IsElem, spec1, elemCT]
-  exact (removeExt_elemCT _ h).2
+  rcases isSpec_cases h with ⟨r, rfl, _⟩ | ⟨r, a, rfl, _, _⟩ | he
+  · simp [lastCT]
+  · simp [lastCT]
+  · rw [lastCT_elem he]; exact (removeExt_spec1 he).2
 
 theorem removeExtTop_cons_cons {c d : CT} (h : c ≠ .ext) (rest : List CT) :
     removeExtTop (c :: d :: rest) = removeExt c :: removeExtTop (d :: rest) := by
@@ -166,16 +174,20 @@ theorem stripCT_elem {s : Cons} (h : IsElem s) : stripCT s = spec1 s := by
 /-- `_remove_extensions` on one serially applied constraint -/
 theorem removeExt_lastCT {s : Cons} (h : IsSpec s) :
     removeExt (lastCT s) = stripCT s ∧ removeExt (stripCT s) = stripCT s ∧ stripCT s ≠ .ext := by
-  by_cases hb : ∃ r, s = .ext r
-  · obtain ⟨r, rfl⟩ := hb
-    obtain ⟨e1, e2⟩ := removeExt_elemCT r h
+  rcases isSpec_cases h with ⟨r, rfl, hr⟩ | ⟨r, a, rfl, hr, _⟩ | hs
+  · obtain ⟨e1, e2⟩ := removeExt_elemCT r hr
     refine ⟨?_, ?_, by simp [stripCT]⟩
     · show removeExt (.csv [elemCT r, .ext]) = .csv [elemCT r]
       rw [removeExt, removeExtList_cons_ne e2, e1]; rfl
     · show removeExt (.csv [elemCT r]) = .csv [elemCT r]
       rw [removeExt, removeExtList_cons_ne e2, e1]; rfl
-  · have hs : IsElem s := by cases s <;> simp_all [IsSpec]
-    obtain ⟨e1, e2⟩ := removeExt_spec1 hs
+  · obtain ⟨e1, e2⟩ := removeExt_elemCT r hr
+    refine ⟨?_, ?_, by simp [stripCT]⟩
+    · show removeExt (.csv [elemCT r, .ext, elemCT a]) = .csv [elemCT r]
+      rw [removeExt, removeExtList_cons_ne e2, e1]; rfl
+    · show removeExt (.csv [elemCT r]) = .csv [elemCT r]
+      rw [removeExt, removeExtList_cons_ne e2, e1]; rfl
+  · obtain ⟨e1, e2⟩ := removeExt_spec1 hs
     rw [lastCT_elem hs, stripCT_elem hs]
     exact ⟨e1, e1, e2⟩
 
@@ -233,7 +245,7 @@ theorem isSpec_specs_level : ∀ (c : Cons), IsLevelAny c → ∀ s ∈ specs c,
   | paren a _ => intro h s hs; simp [specs] at hs; subst hs; exact h
   | ext r _ => intro h s hs; simp [specs] at hs; subst hs; exact h
   | size a _ => intro h; exact absurd h (by simp [IsLevelAny, IsSpec, IsElem])
-  | exta r a _ _ => intro h; exact absurd h (by simp [IsLevelAny, IsSpec, IsElem])
+  | exta r a _ _ => intro h s hs; simp [specs] at hs; subst hs; exact h
 
 /-- `ManyConstraints`: every constraint of a level as the parser leaves it -/
 theorem levelEls_any : ∀ (c : Cons), IsLevelAny c → levelEls c = (specs c).map lastCT := by
@@ -252,7 +264,7 @@ theorem levelEls_any : ∀ (c : Cons), IsLevelAny c → levelEls c = (specs c).m
   | paren a _ => intro h; exact specEls_spec h
   | ext r _ => intro h; exact specEls_spec h
   | size a _ => intro h; exact absurd h (by simp [IsLevelAny, IsSpec, IsElem])
-  | exta r a _ _ => intro h; exact absurd h (by simp [IsLevelAny, IsSpec, IsElem])
+  | exta r a _ _ => intro h; exact specEls_spec h
 
 theorem specs_ne_nil : ∀ (c : Cons), specs c ≠ [] := by
   intro c
@@ -274,19 +286,25 @@ theorem exists_init_last {α : Type} : ∀ (l : List α), l ≠ [] → ∃ init 
   intro l h
   exact ⟨l.dropLast, l.getLast h, (List.dropLast_concat_getLast h).symm⟩
 
-/-- the elements of `combined_constraints` of a level written after a built-in type -/
-theorem combinedEls_level (c : Cons) (h : IsLevelAny c) (hnr : ∀ a b, c ≠ .refine a b) :
+/-- `_remove_extensions(ct, 1)` on the constraints written after one type: only the last one keeps its marker -/
+theorem removeExtTop_level (c : Cons) (h : IsLevelAny c) :
     ∃ init b, specs c = init ++ [b] ∧ (∀ s ∈ init, IsSpec s) ∧ IsSpec b ∧
-      combinedEls c = init.map stripCT ++ [lastCT b] := by
+      removeExtTop (levelEls c) = init.map stripCT ++ [lastCT b] := by
   obtain ⟨init, b, e⟩ := exists_init_last (specs c) (specs_ne_nil c)
   have hall := isSpec_specs_level c h
   rw [e] at hall
   have hi : ∀ s ∈ init, IsSpec s := fun s hs => hall s (by simp [hs])
   have hb : IsSpec b := hall b (by simp)
   refine ⟨init, b, e, hi, hb, ?_⟩
+  rw [levelEls_any c h, e, removeExtTop_map_last init b hi hb]
+
+/-- the elements of `combined_constraints` of a level written after a built-in type -/
+theorem combinedEls_level (c : Cons) (h : IsLevelAny c) (hnr : ∀ a b, c ≠ .refine a b) :
+    ∃ init b, specs c = init ++ [b] ∧ (∀ s ∈ init, IsSpec s) ∧ IsSpec b ∧
+      combinedEls c = init.map stripCT ++ [lastCT b] := by
   have hce : combinedEls c = removeExtTop (levelEls c) := by
     cases c <;> first | rfl | exact absurd rfl (hnr _ _)
-  rw [hce, levelEls_any c h, e, removeExtTop_map_last init b hi hb]
+  rw [hce]; exact removeExtTop_level c h
 
 /-- a parent chain: after `_remove_extensions(ct_parent, 0)` no marker is left -/
 theorem combinedEls_parent : ∀ (a : Cons), IsChainAny a →
@@ -298,8 +316,12 @@ theorem combinedEls_parent : ∀ (a : Cons), IsChainAny a →
     obtain ⟨e1, e2⟩ := iha h.1
     have e3 := isSpec_specs_level b h.2
     refine ⟨?_, ?_⟩
-    · simp only [combinedEls, specs, List.map_append]
-      rw [e1, levelEls_any b h.2, removeExtList_append_strip _ _ e2, (removeExtList_map_last _ e3).1]
+    · obtain ⟨init, l, f1, f2, f3, f4⟩ := removeExtTop_level b h.2
+      simp only [combinedEls, specs, List.map_append]
+      rw [e1, f4, f1, removeExtList_append_strip _ _ e2, removeExtList_append_strip _ _ f2, List.map_append]
+      congr 2
+      show removeExtList [lastCT l] = [stripCT l]
+      rw [removeExtList_cons_ne (lastCT_ne_ext f3), (removeExt_lastCT f3).1]; rfl
     · intro s hs
       simp only [specs, List.mem_append] at hs
       rcases hs with hs | hs
@@ -322,7 +344,7 @@ theorem combinedEls_parent : ∀ (a : Cons), IsChainAny a →
   | paren a _ => exact fun h => parent_single _ h (by intro _ _ h; cases h)
   | ext r _ => exact fun h => parent_single _ h (by intro _ _ h; cases h)
   | size a _ => intro h; exact absurd h (by simp [IsChainAny, IsLevelAny, IsSpec, IsElem])
-  | exta r a _ _ => intro h; exact absurd h (by simp [IsChainAny, IsLevelAny, IsSpec, IsElem])
+  | exta r a _ _ => exact fun h => parent_single _ h (by intro _ _ h; cases h)
 where
   parent_single (c : Cons) (h : IsChainAny c) (hnr : ∀ a b, c ≠ .refine a b) :
       removeExtList (combinedEls c) = (specs c).map stripCT ∧ ∀ s ∈ specs c, IsSpec s := by
@@ -335,62 +357,6 @@ where
     show removeExtList [lastCT l] = [stripCT l]
     rw [removeExtList_cons_ne (lastCT_ne_ext e3), (removeExt_lastCT e3).1]; rfl
 
-
-theorem isElem_specs_level : ∀ (c : Cons), IsLevelNoExt c → ∀ s ∈ specs c, IsElem s := by
-  intro c
-  induction c with
-  | serial a b iha _ =>
-    intro h s hs
-    simp only [specs, List.mem_append, List.mem_singleton] at hs
-    rcases hs with hs | rfl
-    · exact iha h.1 s hs
-    · exact h.2
-  | refine a b _ _ => intro h; exact absurd h (by simp [IsLevelNoExt, IsElem])
-  | single v => intro h s hs; simp [specs] at hs; subst hs; exact h
-  | range lo hi => intro h s hs; simp [specs] at hs; subst hs; exact h
-  | union a b _ _ => intro h s hs; simp [specs] at hs; subst hs; exact h
-  | inter a b _ _ => intro h s hs; simp [specs] at hs; subst hs; exact h
-  | except a b _ _ => intro h s hs; simp [specs] at hs; subst hs; exact h
-  | paren a _ => intro h s hs; simp [specs] at hs; subst hs; exact h
-  | size a _ => intro h; exact absurd h (by simp [IsLevelNoExt, IsElem])
-  | ext r _ => intro h; exact absurd h (by simp [IsLevelNoExt, IsElem])
-  | exta r a _ _ => intro h; exact absurd h (by simp [IsLevelNoExt, IsElem])
-
-
-
-
-/-- `NonDeg` / `LitsOK` along the list of serially applied constraints -/
-def NonDegL (P : ISet) : List Cons → Prop
-  | [] => True
-  | s :: t => NonDeg P s ∧ NonDegL (visible P s) t
-
-theorem nonDegL_append : ∀ (l m : List Cons) (P : ISet),
-    NonDegL P (l ++ m) ↔ NonDegL P l ∧ NonDegL (l.foldl (fun Q s => visible Q s) P) m := by
-  intro l
-  induction l with
-  | nil => intro m P; simp [NonDegL]
-  | cons s t ih => intro m P; simp [NonDegL, ih, and_assoc]
-
-theorem nonDegL_specs : ∀ (c : Cons) (P : ISet), NonDeg P c → NonDegL P (specs c) := by
-  intro c
-  induction c with
-  | serial a b iha _ =>
-    intro P h
-    rw [specs, nonDegL_append, ← visible_specs]
-    exact ⟨iha P h.1, h.2, trivial⟩
-  | refine a b iha ihb =>
-    intro P h
-    rw [specs, nonDegL_append, ← visible_specs]
-    exact ⟨iha P h.1, ihb _ h.2⟩
-  | single v => intro P h; exact ⟨h, trivial⟩
-  | range lo hi => intro P h; exact ⟨h, trivial⟩
-  | union a b _ _ => intro P h; exact ⟨h, trivial⟩
-  | inter a b _ _ => intro P h; exact ⟨h, trivial⟩
-  | except a b _ _ => intro P h; exact ⟨h, trivial⟩
-  | paren a _ => intro P h; exact ⟨h, trivial⟩
-  | size a _ => intro P h; exact ⟨h, trivial⟩
-  | ext r _ => intro P h; exact ⟨h, trivial⟩
-  | exta r a _ _ => intro P h; exact ⟨h, trivial⟩
 
 theorem litsOK_specs : ∀ (c : Cons), LitsOK c → ∀ s ∈ specs c, LitsOK s := by
   intro c
@@ -420,17 +386,42 @@ theorem litsOK_specs : ∀ (c : Cons), LitsOK c → ∀ s ∈ specs c, LitsOK s 
 
 
 
+theorem written_specs : ∀ (c : Cons), Written c → ∀ s ∈ specs c, Written s := by
+  intro c
+  induction c with
+  | serial a b iha _ =>
+    intro h s hs
+    simp only [specs, List.mem_append, List.mem_singleton] at hs
+    rcases hs with hs | rfl
+    · exact iha h.1 s hs
+    · exact h.2
+  | refine a b iha ihb =>
+    intro h s hs
+    simp only [specs, List.mem_append] at hs
+    rcases hs with hs | hs
+    · exact iha h.1 s hs
+    · exact ihb h.2 s hs
+  | single v => intro h s hs; simp [specs] at hs; subst hs; exact h
+  | range lo hi => intro h s hs; simp [specs] at hs; subst hs; exact h
+  | union a b _ _ => intro h s hs; simp [specs] at hs; subst hs; exact h
+  | inter a b _ _ => intro h s hs; simp [specs] at hs; subst hs; exact h
+  | except a b _ _ => intro h s hs; simp [specs] at hs; subst hs; exact h
+  | paren a _ => intro h s hs; simp [specs] at hs; subst hs; exact h
+  | size a _ => intro h s hs; simp [specs] at hs; subst hs; exact h
+  | ext r _ => intro h s hs; simp [specs] at hs; subst hs; exact h
+  | exta r a _ _ => intro h s hs; simp [specs] at hs; subst hs; exact h
+
 theorem compute_spec1 {p : Params} (hc : p.compat = true) (hn : p.nkm = false) {s : Cons} (hs : IsElem s)
-    {mm0 : Option Range} {P : ISet} (hM : MM p mm0 P) (hnd : NonDeg P s) (hl : LitsOK s) :
+    {mm0 : Option Range} {P : ISet} (hM : MM p mm0 P) (hw : Written s) (hl : LitsOK s) :
     ∃ res, compute p (spec1 s) mm0 true = (res, true) ∧
-      (Hard res ∨ ∃ r, res = .ok r ∧ Repr r (visible P s) ∧ r.Clean) := by
+      (Hard res ∨ ∃ r, res = .ok r ∧ ReprE r (visible P s) ∧ r.Clean) := by
   cases s with
-  | paren x => exact compute_elem hc hn x hs mm0 P hM hnd hl
-  | single v => exact compute_elem hc hn _ hs mm0 P hM hnd hl
-  | range lo hi => exact compute_elem hc hn _ hs mm0 P hM hnd hl
-  | union a b => exact compute_elem hc hn _ hs mm0 P hM hnd hl
-  | inter a b => exact compute_elem hc hn _ hs mm0 P hM hnd hl
-  | except a b => exact compute_elem hc hn _ hs mm0 P hM hnd hl
+  | paren x => exact compute_elem hc hn x hs mm0 P hM hw hl
+  | single v => exact compute_elem hc hn _ hs mm0 P hM hw hl
+  | range lo hi => exact compute_elem hc hn _ hs mm0 P hM hw hl
+  | union a b => exact compute_elem hc hn _ hs mm0 P hM hw hl
+  | inter a b => exact compute_elem hc hn _ hs mm0 P hM hw hl
+  | except a b => exact compute_elem hc hn _ hs mm0 P hM hw hl
   | size a => exact absurd hs (by simp [IsElem])
   | ext r => exact absurd hs (by simp [IsElem])
   | exta r a => exact absurd hs (by simp [IsElem])
@@ -442,69 +433,89 @@ theorem compute_ext_true {p : Params} (hc : p.compat = true) (hn : p.nkm = false
     (hcl : (rangeOf (mmEff p mm0)).Clean) : compute p .ext mm0 true = (.erange, true) := by
   rw [compute_eq_body hc hn _ _ _ hcl]; rfl
 
-theorem orStep_erange (range : Range) (ex' : Bool) :
-    orStep range (.erange, ex') = .inr ({ range with ext := true, notOER := true }, ex') := rfl
-
-/-- `(root, ...)`: the CSV accumulation of one canonical operand followed by the marker -/
-theorem or_one_ext {ta range : Range} {Sa : Int → Bool} (ha : Repr ta Sa) (ca : ta.Clean)
-    (_hr : range.Clean) (hre : range.empty = false) :
-    let r : Range := { ta with ext := ta.ext || range.ext, notOER := ta.notOER || range.notOER,
-                               empty := ta.empty || range.empty }
-    let R : Range := { mergeIn r ta with ext := true, notOER := true }
-    Repr (canonicalize R) Sa ∧ (canonicalize R).ext = true ∧ (canonicalize R).notOER = true ∧
-      (canonicalize R).notPER = false := by
-  intro r R
-  have hels : R.els = ta.els ++ ta.leaves := rfl
-  have hne : R.els ≠ [] := by
-    rw [hels]; intro h
-    have := leaves_ne_nil ta
-    simp at h; exact this h.2
-  have hg : Good R.els := by
-    rw [hels]; intro p hp
-    simp only [List.mem_append] at hp
-    rcases hp with hp | hp
-    · exact ha.good p (els_sub_leaves ta p hp)
-    · exact ha.good p hp
-  have hd : ∀ y, den R.els y = Sa y := by
-    intro y
-    rw [hels, den_append, ha.den y]
-    have : den ta.els y = true → Sa y = true := by
-      intro h
-      obtain ⟨i, hi, hy⟩ := den_eq_true.mp h
-      rw [← ha.den y]; exact den_eq_true.mpr ⟨i, els_sub_leaves ta i hi, hy⟩
-    cases h1 : den ta.els y <;> cases h2 : Sa y <;> simp_all
-  have hemp : R.empty = false := by
-    show (ta.empty || range.empty) = false
-    rw [ha.empty, hre]; rfl
-  have hinc : R.incompat = false := ha.incompat
-  obtain ⟨_, _, _, _, c7, _, c9, c10⟩ := canonicalize_ne hne hg
-  refine ⟨repr_of_canonicalize hne hg hd hemp hinc, by rw [c7], by rw [c9], ?_⟩
-  rw [c10]; show (ta.notPER || ta.notPER) = false
-  rw [ca.2.2]; rfl
-
-
-/-- **`(root, ...)`** computed against the parent `range` -/
-theorem compute_csv_ext {p : Params} (hc : p.compat = true) (hn : p.nkm = false) {r : Cons} (hs : IsElem r)
-    {range : Range} {P : ISet} (hr : Repr range P) (hcl : range.Clean) (hnd : NonDeg P r) (hl : LitsOK r) :
-    ∃ res, compute p (.csv [elemCT r, .ext]) (some range) true = (res, true) ∧
-      (Hard res ∨ ∃ t, res = .ok t ∧ Repr t (visible P r) ∧ t.ext = true ∧ t.notOER = true ∧ t.notPER = false) := by
+/-- the first operand of an ACT_CA_CSV computed against the parent `range`: the state of the second loop
+    after it merged the operand into itself -/
+theorem csv_first {p : Params} (hc : p.compat = true) (hn : p.nkm = false) {r : Cons} (hs : IsElem r)
+    {range : Range} {P : ISet} (hr : Repr range P) (hcl : range.Clean) (hw : Written r) (hl : LitsOK r)
+    (rest : List CT) :
+    (∃ res, Hard res ∧ compute p (.csv (elemCT r :: rest)) (some range) true = (res, true)) ∨
+    ∃ R, Acc R (visible P r) ∧ R.Clean ∧
+      compute p (.csv (elemCT r :: rest)) (some range) true = orRest p true rest R (some range) true := by
   have hM : MM p (some range) P := MM.of_some hr hcl
   have e : mmEff p (some range) = some range := by unfold mmEff; cases p.req <;> rfl
   rw [compute_eq_body hc hn _ _ _ hM.clean]
-  show ∃ res, orFirst p [elemCT r, .ext] (rangeOf (mmEff p (some range))) (mmEff p (some range)) true = (res, true) ∧ _
+  show (∃ res, Hard res ∧ orFirst p true (elemCT r :: rest) (rangeOf (mmEff p (some range))) (mmEff p (some range)) true = (res, true)) ∨
+    ∃ R, Acc R (visible P r) ∧ R.Clean ∧
+      orFirst p true (elemCT r :: rest) (rangeOf (mmEff p (some range))) (mmEff p (some range)) true =
+        orRest p true rest R (some range) true
   rw [e]
   have e2 : rangeOf (some range) = range := rfl
   rw [e2]
-  obtain ⟨ra, hra, ha⟩ := compute_elem hc hn r hs (some range) P hM hnd hl
+  obtain ⟨ra, hra, ha⟩ := compute_elem hc hn r hs (some range) P hM hw hl
   rcases ha with ha | ⟨ta, rfl, hta, cta⟩
-  · exact ⟨ra, orFirst_cons_hard hra ha, Or.inl ha⟩
-  · rw [orFirst_cons_ok hra hta.incompat, hra, orStep_ok hta.incompat (by simp [hta.empty])]
-    simp only
-    rw [orRest_cons, compute_ext_true hc hn (by rw [e]; exact hcl), orStep_erange]
-    simp only
-    obtain ⟨q1, q2, q3, q4⟩ := or_one_ext hta cta hcl hr.empty
-    rw [orRest_nil]
-    exact ⟨_, orFinish_clean q4, Or.inr ⟨_, rfl, q1, q2, q3, q4⟩⟩
+  · exact Or.inl ⟨ra, ha, orFirst_cons_hard hra ha⟩
+  · rw [orFirst_cons_ok hra hra hta.incompat]
+    obtain ⟨R1, s1, a1, c1⟩ := acc_start hta hr.empty true
+    rw [s1]
+    exact Or.inr ⟨R1, a1, c1 cta hcl, rfl⟩
+
+/-- **`(root, ...)`** computed against the parent `range` -/
+theorem compute_csv_ext {p : Params} (hc : p.compat = true) (hn : p.nkm = false) {r : Cons} (hs : IsElem r)
+    {range : Range} {P : ISet} (hr : Repr range P) (hcl : range.Clean) (hw : Written r) (hl : LitsOK r) :
+    ∃ res, compute p (.csv [elemCT r, .ext]) (some range) true = (res, true) ∧
+      (Hard res ∨ ∃ t, res = .ok t ∧ ReprE t (visible P r) ∧ t.ext = true ∧ t.notOER = true ∧ t.notPER = false) := by
+  have e : mmEff p (some range) = some range := by unfold mmEff; cases p.req <;> rfl
+  rcases csv_first hc hn hs hr hcl hw hl [.ext] with ⟨res, hh, hres⟩ | ⟨R, aR, cR, hres⟩
+  · exact ⟨res, hres, Or.inl hh⟩
+  · rw [hres, orRest_cons_marker (compute_ext_true hc hn (by rw [e]; exact hcl))]
+    have hfin : orFinish p { R with ext := true, notOER := true } (some range) true =
+        (.ok (canonicalize { R with ext := true, notOER := true }), true) := orFinish_acc cR.2.2
+    have hrest : orRest p true [] { R with ext := true, notOER := true } (some range) true =
+        (.ok (canonicalize { R with ext := true, notOER := true }), true) := by rw [orRest_nil, hfin]
+    obtain ⟨_, f2, _, f4, f5⟩ := canonicalize_flags { R with ext := true, notOER := true }
+    refine ⟨.ok (canonicalize { R with ext := true, notOER := true }), by split <;> assumption, Or.inr ⟨_, rfl, ?_, ?_, ?_, ?_⟩⟩
+    · exact acc_finish (Acc.flags aR _ _ _)
+    · rw [f2]
+    · rw [f4]
+    · rw [f5]; exact cR.2.2
+
+/-- **`(root, ..., additions)`** computed against the parent `range`: with CPR_PER_root_only (or strict
+    PER visibility) the loop stops at the marker and the result is that of `(root, ...)`; otherwise the
+    additions are merged in (the "practical" range of the generated validity checker) and all we need
+    to know is that the result is marked extensible, hence not OER-visible. -/
+theorem compute_csv_exta {p : Params} (hc : p.compat = true) (hn : p.nkm = false) {r a : Cons}
+    (hs : IsElem r) (hsa : IsElem a)
+    {range : Range} {P : ISet} (hr : Repr range P) (hcl : range.Clean) (hw : Written r) (hl : LitsOK r)
+    (hwa : Written a) (hla : LitsOK a) :
+    ∃ res, compute p (.csv [elemCT r, .ext, elemCT a]) (some range) true = (res, true) ∧
+      (Hard res ∨ ∃ t, res = .ok t ∧ t.incompat = false ∧ t.ext = true ∧ t.notOER = true ∧ t.notPER = false ∧
+        ((p.rootOnly = true ∨ p.strictPER = true) → ReprE t (visible P r))) := by
+  have e : mmEff p (some range) = some range := by unfold mmEff; cases p.req <;> rfl
+  have hM : MM p (some range) P := MM.of_some hr hcl
+  rcases csv_first hc hn hs hr hcl hw hl [.ext, elemCT a] with ⟨res, hh, hres⟩ | ⟨R, aR, cR, hres⟩
+  · exact ⟨res, hres, Or.inl hh⟩
+  · rw [hres, orRest_cons_marker (compute_ext_true hc hn (by rw [e]; exact hcl))]
+    by_cases hcut : (true && (p.rootOnly || p.strictPER)) = true
+    · rw [if_pos hcut, orFinish_acc (R := { R with ext := true, notOER := true }) cR.2.2]
+      obtain ⟨_, f2, _, f4, f5⟩ := canonicalize_flags { R with ext := true, notOER := true }
+      have hre := acc_finish (Acc.flags aR true true R.notPER)
+      exact ⟨_, rfl, Or.inr ⟨_, rfl, hre.incompat, by rw [f2], by rw [f4], by rw [f5]; exact cR.2.2, fun _ => hre⟩⟩
+    · rw [if_neg hcut]
+      have hnc : ¬ (p.rootOnly = true ∨ p.strictPER = true) := by
+        intro h; apply hcut; rcases h with h | h <;> simp [h]
+      obtain ⟨rb, hrb, hb⟩ := compute_elem hc hn a hsa (some range) P hM hwa hla
+      rcases hb with hb | ⟨tb, rfl, htb, ctb⟩
+      · rw [orRest_cons_hard hrb hb]; exact ⟨rb, rfl, Or.inl hb⟩
+      · rw [orRest_cons_ok hrb]
+        obtain ⟨R2, s2, a2, _, k2, k3⟩ := acc_step (Acc.flags aR true true R.notPER) htb true
+        rw [s2]
+        simp only
+        obtain ⟨k21, k22⟩ := k2 rfl rfl
+        have knp : R2.notPER = false := by rw [k3 ctb.2.2]; exact cR.2.2
+        rw [orRest_nil, orFinish_acc knp]
+        obtain ⟨_, f2, _, f4, f5⟩ := canonicalize_flags R2
+        exact ⟨_, rfl, Or.inr ⟨_, rfl, (acc_finish a2).incompat, by rw [f2, k21], by rw [f4, k22], by rw [f5, knp],
+          fun h => absurd h hnc⟩⟩
 
 
 
@@ -534,47 +545,8 @@ theorem extensible_elem : ∀ (e : Cons), IsElem e → extensible e = false := b
 
 
 
-theorem isLevelAny_of_last : ∀ (b0 : Cons), IsLevelLast b0 →
-    IsLevelAny b0 ∧ ∃ init b, specs b0 = init ++ [b] ∧ (∀ s ∈ init, IsElem s) ∧ IsSpec b := by
-  intro b0 h
-  have noext_any : ∀ a : Cons, IsLevelNoExt a → IsLevelAny a := by
-    intro a
-    induction a with
-    | serial a b iha _ => intro h; exact ⟨iha h.1, isSpec_of_elem h.2⟩
-    | refine a b _ _ => intro h; exact absurd h (by simp [IsLevelNoExt, IsElem])
-    | size a _ => intro h; exact absurd h (by simp [IsLevelNoExt, IsElem])
-    | ext r _ => intro h; exact absurd h (by simp [IsLevelNoExt, IsElem])
-    | exta r a _ _ => intro h; exact absurd h (by simp [IsLevelNoExt, IsElem])
-    | single v => intro h; exact isSpec_of_elem h
-    | range lo hi => intro h; exact isSpec_of_elem h
-    | union a b _ _ => intro h; exact isSpec_of_elem h
-    | inter a b _ _ => intro h; exact isSpec_of_elem h
-    | except a b _ _ => intro h; exact isSpec_of_elem h
-    | paren a _ => intro h; exact isSpec_of_elem h
-  cases b0 with
-  | serial a s => exact ⟨⟨noext_any a h.1, h.2⟩, specs a, s, rfl, isElem_specs_level a h.1, h.2⟩
-  | refine a b => exact absurd h (by simp [IsLevelLast, IsSpec, IsElem])
-  | size a => exact absurd h (by simp [IsLevelLast, IsSpec, IsElem])
-  | exta r a => exact absurd h (by simp [IsLevelLast, IsSpec, IsElem])
-  | single v => exact ⟨h, [], _, rfl, by simp, h⟩
-  | range lo hi => exact ⟨h, [], _, rfl, by simp, h⟩
-  | union a b => exact ⟨h, [], _, rfl, by simp, h⟩
-  | inter a b => exact ⟨h, [], _, rfl, by simp, h⟩
-  | except a b => exact ⟨h, [], _, rfl, by simp, h⟩
-  | paren a => exact ⟨h, [], _, rfl, by simp, h⟩
-  | ext r => exact ⟨h, [], _, rfl, by simp, h⟩
-
-theorem map_lastCT_elems : ∀ (l : List Cons), (∀ s ∈ l, IsElem s) → l.map lastCT = l.map stripCT := by
-  intro l
-  induction l with
-  | nil => intro _; rfl
-  | cons s t ih =>
-    intro h
-    rw [List.map_cons, List.map_cons, ih (fun x hx => h x (by simp [hx])), lastCT_elem (h s (by simp)),
-      stripCT_elem (h s (by simp))]
-
-/-- **the combined constraints of a type of the guard domain**: every serially applied constraint
-    but the last one without its marker, the last one as written -/
+/-- **the combined constraints of a type of the domain**: every serially applied constraint but the
+    last one without its marker, the last one as written -/
 theorem combinedEls_dom : ∀ (c : Cons), DomV c →
     ∃ init b, specs c = init ++ [b] ∧ (∀ s ∈ init, IsSpec s) ∧ IsSpec b ∧
       combinedEls c = init.map stripCT ++ [lastCT b] := by
@@ -582,15 +554,16 @@ theorem combinedEls_dom : ∀ (c : Cons), DomV c →
   have level : ∀ c : Cons, IsLevelAny c → (∀ a b, c ≠ .refine a b) → _ := combinedEls_level
   cases c with
   | refine a b0 =>
-    obtain ⟨e1, e2⟩ := combinedEls_parent a h.1
-    obtain ⟨hany, init, b, f1, f2, f3⟩ := isLevelAny_of_last b0 h.2
+    have h' : IsChainAny a ∧ IsLevelAny b0 := h
+    obtain ⟨e1, e2⟩ := combinedEls_parent a h'.1
+    obtain ⟨init, b, f1, f2, f3, f4⟩ := removeExtTop_level b0 h'.2
     refine ⟨specs a ++ init, b, by simp [specs, f1], ?_, f3, ?_⟩
     · intro s hs
       rcases List.mem_append.mp hs with hs | hs
       · exact e2 s hs
-      · exact isSpec_of_elem (f2 s hs)
+      · exact f2 s hs
     · simp only [combinedEls]
-      rw [e1, levelEls_any b0 hany, f1, List.map_append, List.map_append, map_lastCT_elems init f2]
+      rw [e1, f4, List.map_append]
       simp
   | serial a s => exact level _ h (by intro _ _ h; cases h)
   | single v => exact level _ h (by intro _ _ h; cases h)
@@ -600,102 +573,46 @@ theorem combinedEls_dom : ∀ (c : Cons), DomV c →
   | except a b => exact level _ h (by intro _ _ h; cases h)
   | paren a => exact level _ h (by intro _ _ h; cases h)
   | ext r => exact level _ h (by intro _ _ h; cases h)
-  | size a => exact absurd h (by simp [DomV, IsLevelAny, IsSpec, IsElem])
-  | exta r a => exact absurd h (by simp [DomV, IsLevelAny, IsSpec, IsElem])
+  | exta r a => exact level _ h (by intro _ _ h; cases h)
+  | size a => exact absurd h (by simp [DomV, IsChainAny, IsLevelAny, IsSpec, IsElem])
 
-/-- `(root)` left over from `(root, ...)` by `_remove_extensions`: the CSV accumulation of one operand -/
-theorem or_one {ta range : Range} {Sa : Int → Bool} (ha : Repr ta Sa) (ca : ta.Clean)
-    (hr : range.Clean) (hre : range.empty = false) :
-    let r : Range := { ta with ext := ta.ext || range.ext, notOER := ta.notOER || range.notOER,
-                               empty := ta.empty || range.empty }
-    let R : Range := mergeIn r ta
-    Repr (canonicalize R) Sa ∧ (canonicalize R).Clean := by
-  intro r R
-  have hels : R.els = ta.els ++ ta.leaves := rfl
-  have hne : R.els ≠ [] := by
-    rw [hels]; intro h
-    have := leaves_ne_nil ta
-    simp at h; exact this h.2
-  have hg : Good R.els := by
-    rw [hels]; intro p hp
-    simp only [List.mem_append] at hp
-    rcases hp with hp | hp
-    · exact ha.good p (els_sub_leaves ta p hp)
-    · exact ha.good p hp
-  have hd : ∀ y, den R.els y = Sa y := by
-    intro y
-    rw [hels, den_append, ha.den y]
-    have : den ta.els y = true → Sa y = true := by
-      intro h
-      obtain ⟨i, hi, hy⟩ := den_eq_true.mp h
-      rw [← ha.den y]; exact den_eq_true.mpr ⟨i, els_sub_leaves ta i hi, hy⟩
-    cases h1 : den ta.els y <;> cases h2 : Sa y <;> simp_all
-  have hemp : R.empty = false := by
-    show (ta.empty || range.empty) = false
-    rw [ha.empty, hre]; rfl
-  have hinc : R.incompat = false := ha.incompat
-  obtain ⟨_, _, _, _, c7, _, c9, c10⟩ := canonicalize_ne hne hg
-  refine ⟨repr_of_canonicalize hne hg hd hemp hinc, ?_, ?_, ?_⟩
-  · rw [c7]; show (ta.ext || range.ext || ta.ext) = false
-    rw [ca.1, hr.1]; rfl
-  · rw [c9]
-    show (ta.notOER || range.notOER || ta.notOER || (ta.ext || range.ext || ta.ext)) = false
-    rw [ca.1, hr.1, ca.2.1, hr.2.1]; rfl
-  · rw [c10]; show (ta.notPER || ta.notPER) = false
-    rw [ca.2.2]; rfl
-
-/-- one serially applied constraint after the pull-up removed its marker -/
+/-- one serially applied constraint after the pull-up removed its marker (and its additions) -/
 theorem compute_strip {p : Params} (hc : p.compat = true) (hn : p.nkm = false) {s : Cons} (hs : IsSpec s)
-    {range : Range} {P : ISet} (hr : Repr range P) (hcl : range.Clean) (hnd : NonDeg P s) (hl : LitsOK s) :
+    {range : Range} {P : ISet} (hr : Repr range P) (hcl : range.Clean) (hw : Written s) (hl : LitsOK s) :
     ∃ res, compute p (stripCT s) (some range) true = (res, true) ∧
-      (Hard res ∨ ∃ r, res = .ok r ∧ Repr r (visible P s) ∧ r.Clean) := by
-  by_cases hb : ∃ r0, s = .ext r0
-  · obtain ⟨r0, rfl⟩ := hb
-    have he : IsElem r0 := hs
-    have hM : MM p (some range) P := MM.of_some hr hcl
-    have e : mmEff p (some range) = some range := by unfold mmEff; cases p.req <;> rfl
-    show ∃ res, compute p (.csv [elemCT r0]) (some range) true = (res, true) ∧ _
-    rw [compute_eq_body hc hn _ _ _ hM.clean]
-    show ∃ res, orFirst p [elemCT r0] (rangeOf (mmEff p (some range))) (mmEff p (some range)) true = (res, true) ∧ _
-    rw [e]
-    have e2 : rangeOf (some range) = range := rfl
-    rw [e2]
-    obtain ⟨ra, hra, ha⟩ := compute_elem hc hn r0 he (some range) P hM hnd hl
-    rcases ha with ha | ⟨ta, rfl, hta, cta⟩
-    · exact ⟨ra, orFirst_cons_hard hra ha, Or.inl ha⟩
-    · rw [orFirst_cons_ok hra hta.incompat, hra, orStep_ok hta.incompat (by simp [hta.empty])]
-      simp only
-      obtain ⟨q1, q2⟩ := or_one hta cta hcl hr.empty
-      rw [orRest_nil]
-      exact ⟨_, orFinish_clean q2.2.2, Or.inr ⟨_, rfl, q1, q2⟩⟩
-  · have he : IsElem s := by cases s <;> simp_all [IsSpec]
-    rw [stripCT_elem he]
-    exact compute_spec1 hc hn he (MM.of_some hr hcl) hnd hl
-
-theorem nonDeg_spec_nonempty {s : Cons} (hs : IsSpec s) {P : ISet} (hnd : NonDeg P s) :
-    ∃ y, visible P s y = true := by
-  by_cases hb : ∃ r0, s = .ext r0
-  · obtain ⟨r0, rfl⟩ := hb; exact nonDeg_nonempty r0 P hs hnd
-  · have he : IsElem s := by cases s <;> simp_all [IsSpec]
-    exact nonDeg_nonempty s P he hnd
+      (Hard res ∨ ∃ r, res = .ok r ∧ ReprE r (visible P s) ∧ r.Clean) := by
+  have one : ∀ r0 : Cons, IsElem r0 → Written r0 → LitsOK r0 →
+      ∃ res, compute p (.csv [elemCT r0]) (some range) true = (res, true) ∧
+        (Hard res ∨ ∃ r, res = .ok r ∧ ReprE r (visible P r0) ∧ r.Clean) := by
+    intro r0 he hw0 hl0
+    rcases csv_first hc hn he hr hcl hw0 hl0 [] with ⟨res, hh, hres⟩ | ⟨R, aR, cR, hres⟩
+    · exact ⟨res, hres, Or.inl hh⟩
+    · rw [hres, orRest_nil, orFinish_acc cR.2.2]
+      exact ⟨_, rfl, Or.inr ⟨_, rfl, acc_finish aR, clean_canonicalize cR⟩⟩
+  rcases isSpec_cases hs with ⟨r0, rfl, he⟩ | ⟨r0, a, rfl, he, _⟩ | he
+  · exact one r0 he hw hl
+  · exact one r0 he hw.1 hl.1
+  · rw [stripCT_elem he]
+    exact compute_spec1 hc hn he (MM.of_some hr hcl) hw hl
 
 /-- one serially applied constraint of the prefix: `(range)(s)` -/
 theorem set_step {p : Params} (hc : p.compat = true) (hn : p.nkm = false) {s : Cons} (hs : IsSpec s)
-    {range : Range} {P : ISet} (hr : Repr range P) (hcl : range.Clean) (hnd : NonDeg P s) (hl : LitsOK s)
-    (rest : List CT) (mm : Option Range) :
+    {range : Range} {P : ISet} (hr : Repr range P) (hcl : range.Clean) (hw : Written s) (hl : LitsOK s)
+    (hne : ∃ y, visible P s y = true) (rest : List CT) (mm : Option Range) :
     (∃ res, Hard res ∧ andLoop p true (stripCT s :: rest) range mm true = (res, true)) ∨
     ∃ range', Repr range' (visible P s) ∧ range'.Clean ∧
       andLoop p true (stripCT s :: rest) range mm true = andLoop p true rest range' mm true := by
-  obtain ⟨res, h1, h2⟩ := compute_strip hc hn hs hr hcl hnd hl
-  obtain ⟨y0, hy0⟩ := nonDeg_spec_nonempty hs hnd
+  obtain ⟨res, h1, h2⟩ := compute_strip hc hn hs hr hcl hw hl
   rcases h2 with h2 | ⟨ta, rfl, hta, cta⟩
   · exact Or.inl ⟨res, h2, andLoop_set_hard h1 h2⟩
   · rw [andLoop_set_ok h1 hta.incompat cta]
     cases hi1 : intersection range ta true p.strictOER with
     | error e => exact Or.inl ⟨_, hard_ofIErr e, rfl⟩
     | ok r1 =>
-      obtain ⟨q1, q2, q3, q4⟩ := inter_canon hr hta ⟨y0, visible_sub s P y0 hy0, hy0⟩ hi1
-      refine Or.inr ⟨canonicalize r1, q1.congr (fun y => ?_), ⟨?_, ?_, ?_⟩, rfl⟩
+      obtain ⟨q1, q2, q3, q4⟩ := inter_E (Or.inl hr) hta hi1
+      obtain ⟨y0, hy0⟩ := hne
+      have q1' := q1.repr ⟨y0, by simp [visible_sub s P y0 hy0, hy0]⟩
+      refine Or.inr ⟨canonicalize r1, q1'.congr (fun y => ?_), ⟨?_, ?_, ?_⟩, rfl⟩
       · cases h1 : visible P s y with
         | true => simp [visible_sub s P y h1]
         | false => simp
@@ -703,24 +620,36 @@ theorem set_step {p : Params} (hc : p.compat = true) (hn : p.nkm = false) {s : C
       · rw [q4, hcl.2.1, cta.1]; rfl
       · rw [q3, hcl.2.2, cta.2.2]; simp
 
+theorem visL_cons (P : ISet) (s : Cons) (t : List Cons) : visL P (s :: t) = visL (visible P s) t := rfl
+
+theorem visL_sub : ∀ (l : List Cons) (Q : ISet) (y : Int), visL Q l y = true → Q y = true := by
+  intro l
+  induction l with
+  | nil => intro Q y h; exact h
+  | cons s t ih => intro Q y h; rw [visL_cons] at h; exact visible_sub s Q y (ih _ y h)
+
 /-- a prefix of constraints applied serially -/
 theorem set_prefix {p : Params} (hc : p.compat = true) (hn : p.nkm = false) :
-    ∀ (l : List Cons), (∀ s ∈ l, IsSpec s) → (∀ s ∈ l, LitsOK s) →
-    ∀ (range : Range) (P : ISet), Repr range P → range.Clean → NonDegL P l →
+    ∀ (l : List Cons), (∀ s ∈ l, IsSpec s) → (∀ s ∈ l, Written s) → (∀ s ∈ l, LitsOK s) →
+    ∀ (range : Range) (P : ISet), Repr range P → range.Clean → (∃ y, visL P l y = true) →
     ∀ (rest : List CT) (mm : Option Range),
     (∃ res, Hard res ∧ andLoop p true (l.map stripCT ++ rest) range mm true = (res, true)) ∨
     ∃ range', Repr range' (visL P l) ∧ range'.Clean ∧
       andLoop p true (l.map stripCT ++ rest) range mm true = andLoop p true rest range' mm true := by
   intro l
   induction l with
-  | nil => intro _ _ range P hr hcl _ rest mm; exact Or.inr ⟨range, hr, hcl, rfl⟩
+  | nil => intro _ _ _ range P hr hcl _ rest mm; exact Or.inr ⟨range, hr, hcl, rfl⟩
   | cons s t ih =>
-    intro he hl range P hr hcl hnd rest mm
+    intro he hw hl range P hr hcl hne rest mm
     rw [List.map_cons, List.cons_append]
-    rcases set_step hc hn (he s (by simp)) hr hcl hnd.1 (hl s (by simp)) (t.map stripCT ++ rest) mm with h | ⟨r', h1, h2, h3⟩
+    obtain ⟨y0, hy0⟩ := hne
+    rw [visL_cons] at hy0
+    rcases set_step hc hn (he s (by simp)) hr hcl (hw s (by simp)) (hl s (by simp)) ⟨y0, visL_sub t _ y0 hy0⟩
+      (t.map stripCT ++ rest) mm with h | ⟨r', h1, h2, h3⟩
     · exact Or.inl h
     · rw [h3]
-      exact ih (fun x hx => he x (by simp [hx])) (fun x hx => hl x (by simp [hx])) r' _ h1 h2 hnd.2 rest mm
+      exact ih (fun x hx => he x (by simp [hx])) (fun x hx => hw x (by simp [hx])) (fun x hx => hl x (by simp [hx]))
+        r' _ h1 h2 ⟨y0, hy0⟩ rest mm
 
 
 
@@ -764,7 +693,7 @@ theorem level_split : ∀ (b0 : Cons), IsLevelAny b0 → ∀ (init : List Cons) 
     exact ⟨rfl, fun Q => by simp only [oerVisible, visible_eq_visL a]⟩
   | refine a b => exact absurd h (by simp [IsLevelAny, IsSpec, IsElem])
   | size a => exact absurd h (by simp [IsLevelAny, IsSpec, IsElem])
-  | exta r a => exact absurd h (by simp [IsLevelAny, IsSpec, IsElem])
+  | exta r a => exact single _ h rfl e
   | single v => exact single _ h rfl e
   | range lo hi => exact single _ h rfl e
   | union a b => exact single _ h rfl e
@@ -773,18 +702,19 @@ theorem level_split : ∀ (b0 : Cons), IsLevelAny b0 → ∀ (init : List Cons) 
   | paren a => exact single _ h rfl e
   | ext r => exact single _ h rfl e
 
-/-- Spec on a constraint of the guard domain, in terms of its serial members -/
+/-- Spec on a constraint of the domain, in terms of its serial members -/
 theorem dom_split : ∀ (c : Cons), DomV c → ∀ (init : List Cons) (b : Cons), specs c = init ++ [b] →
     extensible c = extensible b ∧
       ∀ P, oerVisible P c = (if extensible b then visL P init else visible (visL P init) b) := by
   intro c h init b e
   cases c with
   | refine a b0 =>
-    obtain ⟨hany, initb, lb, f1, _, _⟩ := isLevelAny_of_last b0 h.2
+    have h' : IsChainAny a ∧ IsLevelAny b0 := h
+    obtain ⟨initb, lb, f1⟩ := exists_init_last (specs b0) (specs_ne_nil b0)
     have e' : (specs a ++ initb) ++ [lb] = init ++ [b] := by rw [← e]; simp [specs, f1]
     obtain ⟨e1, e2⟩ := List.append_inj' e' rfl
     simp at e2; subst e1; subst e2
-    obtain ⟨g1, g2⟩ := level_split b0 hany initb lb f1
+    obtain ⟨g1, g2⟩ := level_split b0 h'.2 initb lb f1
     refine ⟨by simp [extensible, g1], fun P => ?_⟩
     simp only [oerVisible, g2, visL_append, visible_eq_visL a]
   | serial a s => exact level_split _ h init b e
@@ -795,77 +725,129 @@ theorem dom_split : ∀ (c : Cons), DomV c → ∀ (init : List Cons) (b : Cons)
   | except x y => exact level_split _ h init b e
   | paren a => exact level_split _ h init b e
   | ext r => exact level_split _ h init b e
-  | size a => exact absurd h (by simp [DomV, IsLevelAny, IsSpec, IsElem])
-  | exta r a => exact absurd h (by simp [DomV, IsLevelAny, IsSpec, IsElem])
+  | exta r a => exact level_split _ h init b e
+  | size a => exact absurd h (by simp [DomV, IsChainAny, IsLevelAny, IsSpec, IsElem])
 
-theorem isElem_of_spec_not_ext {b : Cons} (h : IsSpec b) (hne : ∀ r, b ≠ .ext r) : IsElem b := by
-  cases b <;> simp_all [IsSpec]
+/-- no serially applied constraint has extension additions -/
+def NoAdds (c : Cons) : Prop := ∀ s ∈ specs c, ∀ r a, s ≠ .exta r a
 
-/-- what the top-level ACT_CA_SET loop returns on the combined constraints of a type in the guard
+/-- the request does not look at extension additions: CPR_PER_root_only (PER tables) or strict PER
+    visibility (the printed PER-visible line) stop at the marker, strict OER visibility ignores an
+    extensible constraint altogether.  (Without any of them the additions are merged in: the
+    "practical" range of the generated validity checker.) -/
+def AddsInvisible (p : Params) : Prop := p.strictOER = true ∨ p.rootOnly = true ∨ p.strictPER = true
+
+/-- the last constraint of the chain carries the marker: `t` is what the function returned for it -/
+theorem last_ext_step {p : Params} {ct : CT} {range' t : Range} {Q S : ISet} {mm : Option Range}
+    (hrt : compute p ct (some range') true = (.ok t, true))
+    (hr' : Repr range' Q) (hcl' : range'.Clean)
+    (hi : t.incompat = false) (hext : t.ext = true) (hno : t.notOER = true) (hnp : t.notPER = false)
+    (hS : p.strictOER = false → ReprE t S) (hsub : ∀ y, S y = true → Q y = true) (hne : ∃ y, S y = true) :
+    ∃ res, andLoop p true [ct] range' mm true = (res, true) ∧
+      (Hard res ∨ ∃ r, res = .ok r ∧
+        (if p.strictOER = true then r = range'
+         else Repr r S ∧ r.ext = true ∧ r.notPER = false)) := by
+  rw [andLoop]
+  have hrt' : compute p ct (if true = true then some range' else mm) true = (.ok t, true) := by
+    simpa using hrt
+  rw [hrt']
+  simp only [hi, hno, hnp, Bool.false_eq_true, if_false, Bool.true_and, Bool.false_and]
+  by_cases hso : p.strictOER = true
+  · -- X.696 8.2.4: not OER-visible, skipped
+    simp only [hso, if_true]
+    rw [andLoop_nil]
+    exact ⟨_, rfl, Or.inr ⟨_, rfl, rfl⟩⟩
+  · have hso' : p.strictOER = false := by simpa using hso
+    simp only [hso', Bool.false_eq_true, if_false]
+    cases hi1 : intersection range' t true false with
+    | error e => exact ⟨_, rfl, Or.inl (hard_ofIErr e)⟩
+    | ok r1 =>
+      simp only
+      rw [andLoop_nil]
+      obtain ⟨q1, q2, q3, _⟩ := inter_E (Or.inl hr') (hS hso') hi1
+      obtain ⟨y0, hy0⟩ := hne
+      have q1' := q1.repr ⟨y0, by simp [hsub y0 hy0, hy0]⟩
+      refine ⟨_, rfl, Or.inr ⟨_, rfl, q1'.congr (fun y => ?_), ?_, ?_⟩⟩
+      · cases h1 : S y with
+        | true => simp [hsub y h1]
+        | false => simp
+      · rw [q2, hext]; simp
+      · rw [q3, hcl'.2.2, hnp]; rfl
+
+/-- what the top-level ACT_CA_SET loop returns on the combined constraints of a type of the
     domain, starting from the clone `range0` of the parent (`P0` = all integers, or the naturals for SIZE) -/
 theorem chain_top {p : Params} (hc : p.compat = true) (hn : p.nkm = false) {c : Cons} (hd : DomV c)
     {range0 : Range} {P0 : ISet} (hr0 : Repr range0 P0) (hcl0 : range0.Clean)
-    (hnd : NonDeg P0 c) (hl : LitsOK c) (mm : Option Range) :
+    (hw : Written c) (hl : LitsOK c) (hne : ∃ y, visible P0 c y = true) (hadd : AddsInvisible p ∨ NoAdds c)
+    (mm : Option Range) :
     ∃ res, andLoop p true (combinedEls c) range0 mm true = (res, true) ∧
       (Hard res ∨ ∃ r, res = .ok r ∧
         (if p.strictOER = true then Repr r (oerVisible P0 c) ∧ r.Clean
          else Repr r (visible P0 c) ∧ r.ext = extensible c ∧ r.notPER = false)) := by
   obtain ⟨init, b, e1, e2, e3, e0⟩ := combinedEls_dom c hd
   obtain ⟨e4, e5⟩ := dom_split c hd init b e1
-  have hndl := nonDegL_specs c P0 hnd
   have hll := litsOK_specs c hl
-  rw [e1] at hndl hll
-  rw [nonDegL_append] at hndl
-  have hndb : NonDeg (visL P0 init) b := hndl.2.1
+  have hww := written_specs c hw
+  rw [e1] at hll hww
   have hlb : LitsOK b := hll b (by simp)
+  have hwb : Written b := hww b (by simp)
   have hvis : visible P0 c = visible (visL P0 init) b := by
     rw [visible_eq_visL c, e1, visL_append]; rfl
+  obtain ⟨y0, hy0⟩ := hne
+  rw [hvis] at hy0
+  have hne' : ∃ y, visL P0 init y = true := ⟨y0, visible_sub b _ y0 hy0⟩
   rw [e0]
-  rcases set_prefix hc hn init e2 (fun s hs => hll s (by simp [hs])) range0 P0 hr0 hcl0 hndl.1 [lastCT b] mm with
+  rcases set_prefix hc hn init e2 (fun s hs => hww s (by simp [hs])) (fun s hs => hll s (by simp [hs]))
+      range0 P0 hr0 hcl0 hne' [lastCT b] mm with
     ⟨res, hh, hres⟩ | ⟨range', hr', hcl', hres⟩
   · exact ⟨res, hres, Or.inl hh⟩
   · rw [hres]
-    by_cases hb : ∃ r0, b = .ext r0
+    -- the common end of the two marker cases
+    have marker : ∀ (ct : CT) (t : Range) (r0 : Cons), lastCT b = ct → extensible b = true →
+        visible (visL P0 init) b = visible (visL P0 init) r0 →
+        compute p ct (some range') true = (.ok t, true) →
+        t.incompat = false → t.ext = true → t.notOER = true → t.notPER = false →
+        (p.strictOER = false → ReprE t (visible (visL P0 init) r0)) →
+        ∃ res, andLoop p true [lastCT b] range' mm true = (res, true) ∧
+          (Hard res ∨ ∃ r, res = .ok r ∧
+            (if p.strictOER = true then Repr r (oerVisible P0 c) ∧ r.Clean
+             else Repr r (visible P0 c) ∧ r.ext = extensible c ∧ r.notPER = false)) := by
+      intro ct t r0 hct hextb hvb hrt k1 k2 k3 k4 k5
+      rw [hct]
+      obtain ⟨res, h1, h2⟩ := last_ext_step (mm := mm) hrt hr' hcl' k1 k2 k3 k4 k5
+        (fun y hy => visible_sub r0 _ y hy) ⟨y0, by rw [← hvb]; exact hy0⟩
+      refine ⟨res, h1, ?_⟩
+      rcases h2 with h2 | ⟨r, rfl, h3⟩
+      · exact Or.inl h2
+      · refine Or.inr ⟨r, rfl, ?_⟩
+        by_cases hso : p.strictOER = true
+        · simp only [hso, if_true] at h3 ⊢
+          subst h3
+          refine ⟨?_, hcl'⟩
+          rw [e5 P0, hextb]; simpa using hr'
+        · simp only [hso] at h3 ⊢
+          exact ⟨by rw [hvis, hvb]; exact h3.1, by rw [e4, hextb]; exact h3.2.1, h3.2.2⟩
+    rcases isSpec_cases e3 with ⟨r0, rfl, hs⟩ | ⟨r0, a, rfl, hs, hsa⟩ | hs
     · -- the last constraint is `(r0, ...)`
-      obtain ⟨r0, rfl⟩ := hb
-      have hs : IsElem r0 := e3
-      obtain ⟨rt, hrt, ht⟩ := compute_csv_ext hc hn hs hr' hcl' hndb hlb
-      show ∃ res, andLoop p true [.csv [elemCT r0, .ext]] range' mm true = (res, true) ∧ _
+      obtain ⟨rt, hrt, ht⟩ := compute_csv_ext hc hn hs hr' hcl' hwb hlb
       rcases ht with ht | ⟨t, rfl, ht1, ht2, ht3, ht4⟩
       · exact ⟨rt, andLoop_set_hard hrt ht, Or.inl ht⟩
-      · rw [andLoop]
-        have hrt' : compute p (.csv [elemCT r0, .ext]) (if true = true then some range' else mm) true = (.ok t, true) := by
-          simpa using hrt
-        rw [hrt']
-        simp only [ht1.incompat, ht3, ht4, Bool.false_eq_true, if_false, Bool.true_and, Bool.false_and]
-        by_cases hso : p.strictOER = true
-        · -- X.696 8.2.4: not OER-visible, skipped
-          simp only [hso, if_true]
-          rw [andLoop_nil]
-          refine ⟨_, rfl, Or.inr ⟨_, rfl, ?_, hcl'⟩⟩
-          rw [e5 P0]; simp only [extensible, if_true]; exact hr'
-        · have hso' : p.strictOER = false := by simpa using hso
-          simp only [hso', Bool.false_eq_true, if_false]
-          obtain ⟨y0, hy0⟩ := nonDeg_nonempty r0 _ hs hndb
-          cases hi1 : intersection range' t true false with
-          | error e => exact ⟨_, rfl, Or.inl (hard_ofIErr e)⟩
-          | ok r1 =>
-            simp only
-            rw [andLoop_nil]
-            obtain ⟨q1, q2, q3, _⟩ := inter_canon hr' ht1 ⟨y0, visible_sub r0 _ y0 hy0, hy0⟩ hi1
-            refine ⟨_, rfl, Or.inr ⟨_, rfl, q1.congr (fun y => ?_), ?_, ?_⟩⟩
-            · rw [hvis]; simp only [visible]
-              cases h1 : visible (visL P0 init) r0 y with
-              | true => simp [visible_sub r0 _ y h1]
-              | false => simp
-            · rw [q2, ht2, e4]; simp [extensible]
-            · rw [q3, hcl'.2.2, ht4]; rfl
+      · exact marker _ t r0 rfl rfl rfl hrt ht1.incompat ht2 ht3 ht4 (fun _ => ht1)
+    · -- the last constraint is `(r0, ..., a)`
+      obtain ⟨rt, hrt, ht⟩ := compute_csv_exta hc hn hs hsa hr' hcl' hwb.1 hlb.1 hwb.2 hlb.2
+      rcases ht with ht | ⟨t, rfl, ht1, ht2, ht3, ht4, ht5⟩
+      · exact ⟨rt, andLoop_set_hard hrt ht, Or.inl ht⟩
+      · refine marker _ t r0 rfl rfl rfl hrt ht1 ht2 ht3 ht4 (fun hso => ?_)
+        rcases hadd with (h | h | h) | h
+        · rw [hso] at h; cases h
+        · exact ht5 (Or.inl h)
+        · exact ht5 (Or.inr h)
+        · exact absurd rfl (h (.exta r0 a) (by rw [e1]; simp) r0 a)
     · -- the last constraint is not extensible
-      have hs : IsElem b := isElem_of_spec_not_ext e3 (fun r hr => hb ⟨r, hr⟩)
       have hlast : lastCT b = stripCT b := by rw [lastCT_elem hs, stripCT_elem hs]
       rw [hlast]
       have hext : extensible c = false := by rw [e4]; exact extensible_elem b hs
-      rcases set_step hc hn e3 hr' hcl' hndb hlb [] mm with ⟨res, hh, hres2⟩ | ⟨r2, h1, h2, h3⟩
+      rcases set_step hc hn e3 hr' hcl' hwb hlb ⟨y0, hy0⟩ [] mm with ⟨res, hh, hres2⟩ | ⟨r2, h1, h2, h3⟩
       · exact ⟨res, hres2, Or.inl hh⟩
       · rw [h3, andLoop_nil]
         refine ⟨_, rfl, Or.inr ⟨_, rfl, ?_⟩⟩
@@ -886,17 +868,14 @@ theorem repr_new : Repr Range.new ISet.univ ∧ Range.new.Clean := by
 theorem repr_sizeDefault : Repr sizeDefault ISet.nat ∧ sizeDefault.Clean := by
   refine ⟨(repr_single (r := sizeDefault) rfl (by decide) ?_ rfl rfl).congr (fun y => ?_), rfl, rfl, rfl⟩
   · constructor
-    · intro v hv; cases hv; simp [INTMAX_MIN, INTMAX_MAX]
+    · intro v hv; cases hv; simp [ASN_INTEGER_MIN, ASN_INTEGER_MAX]
     · intro v hv; cases hv
   · simp [Iv.mem, sizeDefault, ISet.nat]
 
-theorem repr_nonempty {r : Range} {S : Int → Bool} (h : Repr r S) : ∃ y, S y = true := by
-  obtain ⟨hd, t, e1, _, _⟩ := h.ends
-  obtain ⟨y, hy⟩ := Iv.wf_nonempty (h.good hd (by rw [e1]; simp)).1
-  exact ⟨y, by rw [← h.den y, e1]; simp [hy]⟩
+theorem repr_nonempty {r : Range} {S : Int → Bool} (h : Repr r S) : ∃ y, S y = true := h.nonempty
 
 theorem domV_of_spec {a : Cons} (h : IsSpec a) : DomV a ∧ specs a = [a] := by
-  cases a <;> simp_all [IsSpec, IsElem, DomV, IsLevelAny, specs]
+  cases a <;> simp_all [IsSpec, IsElem, DomV, IsChainAny, IsLevelAny, specs]
 
 theorem combinedEls_spec {a : Cons} (h : IsSpec a) : combinedEls a = [lastCT a] := by
   obtain ⟨hd, hsp⟩ := domV_of_spec h
